@@ -1,4 +1,5 @@
 import LyModel.JsonTree.Spec
+import LyModel.JsonTree.Doc
 import LyModel.Generated.JsonTyping
 /-! driver op of component `jsontree`: `print <rows-hex>` — rows as printed by harness `api_rt` (`jview`). -/
 namespace LyModel.JsonTree.Drv
@@ -62,6 +63,13 @@ def build : (fuel : Nat) → (d : Nat) → List Row → List JNode × List Row
         let (sibs, rest') := build fuel d rest
         (JNode.mk r.kind r.sid r.modName r.name r.shown r.metas r.vkind r.value kids :: sibs, rest')
 
+/-- canonical rendering of what the independent reader reports (compared with Python's `json` in the check) -/
+partial def canon : JsonDoc.JV → String
+  | .str b => "s" ++ Hex.enc b
+  | .lit b => "l" ++ Hex.enc b
+  | .obj ks vs => "{" ++ ",".intercalate ((ks.zip vs).map fun (k, v) => Hex.enc k ++ ":" ++ canon v) ++ "}"
+  | .arr xs => "[" ++ ",".intercalate (xs.map canon) ++ "]"
+
 def handle (op : String) (args : List String) : String :=
   match op, args with
   | "print", [h] =>
@@ -87,6 +95,13 @@ def handle (op : String) (args : List String) : String :=
         if !rest.isEmpty then "err BadRows"
         else if rows.any (fun r => !r.metas.isEmpty) then "err HasMeta"
         else "ok " ++ Hex.enc (specData forest)
+  | "docparse", [h] =>
+    match Hex.dec h with
+    | none => "err BadHex"
+    | some b =>
+      match JsonDoc.parseDoc b with
+      | some v => "ok " ++ canon v
+      | none => "err NotJson"
   | _, _ => "err BadOp"
 
 end LyModel.JsonTree.Drv
